@@ -12,6 +12,10 @@
  * canonical output produced here:
  *   ev <prog> <tok>...       line-number bookkeeping events of one finished compilation (hook in icode.c/compiler.c)
  *                              b | s:<line>:<addr>:<block> | r:<line>:<addr>:<block> (replayed by __INIT placement) | f:<fileid>:<lines> | a:<fileid>:<name> | i:<base>:<size> | e:<psize>
+ *   nv <prog> <tok>...       what i_generate_node saw, in order: n:<line>:<addr>:<block>:<count> a visited parse node (+ count-1
+ *                            following visits with the same line and block that did not call switch_to_line),
+ *                            x:<line>:<addr>:<block> a switch_to_line call not made for a node, i:<base>:<size> __INIT placement
+ *   sw <prog> <line>:<addr>:<block>...   the switch_to_line calls made for node visits
  *   fn <prog> <name>,...     function table of a program (index order)
  *   tab <prog> psize=<n> hdr=<file_info[0]>:<file_info[1]> fi=<count>:<file>,... li=<len>:<line16>,... files=<id>:<name>,...
  *                            the real file_info / line_info tables (raw unsigned 16 bit values) and the program size
@@ -96,6 +100,20 @@ static void tb_flush (tbuf_t * t)
 
 /* ---- compiler events ---------------------------------------------------- */
 static tbuf_t evb;
+/* parse nodes visited by i_generate_node: one entry per visit that reached switch_to_line or that differs in (line, block)
+ * from the visit before it; visits with the same line and block that did NOT call switch_to_line are counted into the
+ * entry in front of them.  swb = the switch_to_line calls made from node visits (kind 's'), in order */
+static tbuf_t nvb, swb;
+static long nv_line, nv_addr, nv_block, nv_count;
+static int nv_have = 0, nv_in = 0, nv_cur_switched = 0;
+static long nv_cur_line, nv_cur_addr, nv_cur_block;
+
+static void nv_flush (void)
+{
+  if (nv_have)
+    tb_add (&nvb, " n:%ld:%ld:%ld:%ld", nv_line, nv_addr, nv_block, nv_count);
+  nv_have = 0;
+}
 
 static void line_hook (int kind, long a, long b, long c, const char *s)
 {
@@ -104,9 +122,46 @@ static void line_hook (int kind, long a, long b, long c, const char *s)
     case 'b':
       evb.n = 0;
       tb_add (&evb, "b");
+      nvb.n = swb.n = 0;
+      nv_have = nv_in = 0;
+      break;
+    case 'n':
+      /* a visit; whether it switches is known at 'N' */
+      nv_cur_line = a;
+      nv_cur_addr = b;
+      nv_cur_block = c;
+      nv_cur_switched = 0;
+      nv_in = 1;
+      break;
+    case 'N':
+      if (nv_in)
+        {
+          if (!nv_cur_switched && nv_have && nv_cur_line == nv_line && nv_cur_block == nv_block)
+            nv_count++;		/* same line and block as the entry in front, no switch_to_line: counted into it */
+          else
+            {
+              nv_flush ();
+              nv_line = nv_cur_line;
+              nv_addr = nv_cur_addr;
+              nv_block = nv_cur_block;
+              nv_count = 1;
+              nv_have = 1;
+            }
+          nv_in = 0;
+        }
       break;
     case 's':
       tb_add (&evb, " s:%ld:%ld:%ld", a, b, c);
+      if (nv_in)
+        {
+          nv_cur_switched = 1;
+          tb_add (&swb, " %ld:%ld:%ld", a, b, c);
+        }
+      else
+        {
+          nv_flush ();
+          tb_add (&nvb, " x:%ld:%ld:%ld", a, b, c);	/* switch_to_line not called for a node visit */
+        }
       break;
     case 'r':
       tb_add (&evb, " r:%ld:%ld:%ld", a, b, c);
@@ -120,13 +175,18 @@ static void line_hook (int kind, long a, long b, long c, const char *s)
       break;
     case 'i':
       tb_add (&evb, " i:%ld:%ld", a, b);
+      nv_flush ();
+      tb_add (&nvb, " i:%ld:%ld", a, b);
       break;
     case 'e':
       {
         tb_add (&evb, " e:%ld", a);
         fprintf (stderr, "VL ev %s %s\n", s ? s : "?", evb.s);
+        nv_flush ();
+        fprintf (stderr, "VL nv %s%s\n", s ? s : "?", nvb.n ? nvb.s : " -");
+        fprintf (stderr, "VL sw %s%s\n", s ? s : "?", swb.n ? swb.s : " -");
         fflush (stderr);
-        evb.n = 0;
+        evb.n = nvb.n = swb.n = 0;
         break;
       }
     }
